@@ -271,7 +271,7 @@ package server
 // is now best may not be sent to this non-client, but the route it replaces was one this peer had been sent by
 // reflection (it came from a route-reflector client other than this peer), that one is withdrawn - the peer must not
 // keep a route the reflector no longer uses
-//@   at-return requires ignore && path != nil && !path.IsWithdraw && old != nil && old.GetSource().RouteReflectorClient && old.GetSource().Address.String() != peer.ID() ==> ret0 != nil
+//@   at-return requires ignore && !peer.isRouteReflectorClient() && path != nil && !path.IsWithdraw && old != nil && old.GetSource().RouteReflectorClient && old.GetSource().Address.String() != peer.ID() ==> ret0 != nil
 //@   at-return requires ret0 != nil && !ret0.IsWithdraw && isASLoop(peer, ret0) ==> ret0.IsLocal() && peer.allowAsPathLoopLocal()
 //@   at-return requires ret0 != nil && !ret0.IsWithdraw && peer.IsFamilyEnabled(bgp.RF_RTC_UC) && ret0.GetFamily() != bgp.RF_RTC_UC ==> peer.interestedIn(ret0)
 
